@@ -4,14 +4,15 @@ from . import core, plan
 from .core import ROOT
 
 TIERS = {
-    'quick': {'k2_ns': [1, 2], 'k2_timeout': 300, 'k1_timeout': 420,
+    'quick': {'k2_ns': [1, 2], 'k2_ns_light': [1, 2, 3], 'k2_timeout': 300, 'k1_timeout': 420,
               'k1': {'lru': 5, 'mru': 5, 'rr': 6, 'fifo': 4, 'lfu': 0, 'tlru': 3, 'utlru': 3, 'lfuda': 0, 'utmap': 0, 'utset': 0},
               'k1_n': 2, 'lift_extra': 2, 'lift_timeout': 420},
-    'thorough': {'k2_ns': [1, 2, 3], 'k2_timeout': 3600, 'k1_timeout': 3600,
+    'thorough': {'k2_ns': [1, 2, 3], 'k2_ns_light': [1, 2, 3, 4], 'k2_timeout': 3600, 'k1_timeout': 3600,
                  'k1': {'lru': 7, 'mru': 7, 'rr': 8, 'fifo': 6, 'lfu': 3, 'tlru': 4, 'utlru': 4, 'lfuda': 2, 'utmap': 3, 'utset': 3},
                  'k1_n': 2, 'lift_extra': 2, 'lift_timeout': 3600},
 }
 PROP_TITLES = {}
+LIGHT = ('lru', 'mru', 'fifo', 'rr')  # containers whose step queries stay cheap one capacity higher
 
 
 def ts_modes(n, tier):
@@ -136,7 +137,7 @@ def k2_queries(num, tier, only=None):
     for cont, ops in scope.items():
         if only and cont not in only:
             continue
-        for n in cfg['k2_ns']:
+        for n in (cfg['k2_ns_light'] if cont in LIGHT else cfg['k2_ns']):
             for ts in ts_modes(n, tier):
                 for op in ops:
                     for p in ([num, 0, 99] if num != 0 else [0, 99]):
@@ -292,7 +293,7 @@ def run_property(num, tier, seed, only=None):
     ev = Evidence(num, tier, seed)
     ev.assumptions = list(COMMON_ASSUMPTIONS)
     cfg = TIERS[tier]
-    ev.bounds = {'k2_capacities': cfg['k2_ns'], 'k2_histories': 'any length (inductive step from any invariant state)',
+    ev.bounds = {'k2_capacities': cfg['k2_ns'], 'k2_capacities_lru_mru_fifo_rr': cfg['k2_ns_light'], 'k2_histories': 'any length (inductive step from any invariant state)',
                  'k1_capacity': cfg['k1_n'], 'k1_history_length': cfg['k1'], 'per_query_timeout_s': cfg['k2_timeout'],
                  'outside': 'capacities above the listed ones; K1 histories longer than listed; value types other than uint64_t; '
                             'allocation failure; clocks beyond 2^40 ticks or decreasing; lfuda ratios other than 1/2'}
